@@ -1,5 +1,6 @@
 import GoBatcher.Generated.Facts
 import GoBatcher.Model.Validate
+import GoBatcher.Model.Batcher
 /-!
 Expectations on the facts regenerated from /repo's sources on every run (`Generated/Facts.lean`).
 Each theorem pins a syntactic fact the hand-written model relies on; its name carries the ids of the properties
@@ -27,5 +28,23 @@ theorem facts_C03_C19_count_then_hook_then_insert :
 
 /-- v2 buffer: `shutdown()` broadcasts and a woken `enqueue` re-checks `isShutdown` (fix of finding F4) -/
 theorem facts_C15_C16_shutdown_wakes_waiters : Facts.v2_shutdownWakesWaiters = some true := by decide
+
+/-- C16: the v2 setters the property names refuse (panic) once the Batcher has been started -/
+theorem facts_C16_setter_guards :
+    ∀ x ∈ ["WithRateLimiter", "WithFlushInterval", "WithCapacityInterval", "WithAuditInterval", "WithMaxOperationTime",
+           "WithPauseTime", "WithErrorOnFullBuffer"], x ∈ Facts.v2_guardedSetters := by decide
+
+/-- the defaults `applyDefaults` installs are the model's (nanoseconds), in both generations -/
+theorem facts_C02_C11_C12_C13_C19_default_values :
+    Facts.v2_defaults = ["r.flushInterval <= 0|r.flushInterval|" ++ toString defFlush,
+                         "r.capacityInterval <= 0|r.capacityInterval|" ++ toString defCap,
+                         "r.auditInterval <= 0|r.auditInterval|" ++ toString defAudit,
+                         "r.maxOperationTime <= 0|r.maxOperationTime|" ++ toString defMot,
+                         "r.pauseTime <= 0|r.pauseTime|" ++ toString defPause] ∧
+    Facts.v1_defaults = Facts.v2_defaults := by decide
+
+/-- Enqueue takes the cost back when the buffer refuses the operation (fix of findings F1/F2) -/
+theorem facts_C03_C14_C15_C19_rollback :
+    Facts.v1_rollbackOnInsertError = true ∧ Facts.v2_rollbackOnInsertError = true := by decide
 
 end GoBatcher.Expect
